@@ -10,6 +10,7 @@ import FordModel.ExternalSpec
 import FordModel.Lemmas.External
 import FordModel.Lemmas.ExternalRT
 import FordModel.Lemmas.ExternalReach
+import FordModel.Lemmas.ExternalUrl
 namespace Ford.C16
 open Ford Ford.Ext
 
@@ -122,6 +123,101 @@ theorem pub_keys_exported :
 theorem external_items_not_reexported (b : Base) (q : Option Json) (xs : List Ent) :
     importList b q (exportList (.ext :: xs)) = importList b q (exportList xs) := by
   simp [exportList, exportE, importList, truthy]
+
+/-! ## Every description is that of the entity listed at that place -/
+
+/-- A list-valued attribute (`functions`, `interfaces`, `types`, `variables`, `boundprocs` ...) is
+    exported item by item: the i-th description is `obj2dict` of the i-th item itself, whatever was
+    exported before it (no state is carried from one entity to the next). -/
+theorem export_list_pointwise (xs : List Ent) : exportList xs = xs.map exportE := by
+  induction xs with
+  | nil => simp [exportList]
+  | cons x r ih => simp [exportList, ih]
+
+/-- ... and a dict-valued attribute (`pub_procs`, `pub_types`, `pub_vars`, `pub_absints`) value by
+    value: under each key stands the description of the entity stored under that key. -/
+theorem export_dict_pointwise (kvs : List (Str × Ent)) :
+    exportDict kvs = kvs.map (fun kv => (kv.1, exportE kv.2)) := by
+  induction kvs with
+  | nil => simp [exportDict]
+  | cons x r ih => obtain ⟨k, e⟩ := x; simp [exportDict, ih]
+
+/-- The description of an entity carries that entity's own name, its own `get_url()` (behind `./`),
+    its own `obj` and its own `proctype` - in particular two entities with the same name but of
+    different kinds (a type and its constructor interface, a component and a module function named
+    alike) are described by their own kinds and their own URLs. -/
+theorem export_header_own (name : Str) (url : Option Str) (obj : Str) (pt : Option Str)
+    (attrs : List (Str × Attr)) :
+    jField kName (exportE (.node name url obj pt attrs)) = some (.str name) ∧
+    jField kUrl (exportE (.node name url obj pt attrs)) = some (.str ('.' :: '/' :: urlText url)) ∧
+    jField kObj (exportE (.node name url obj pt attrs)) = some (.str obj) ∧
+    jField kProctype (exportE (.node name url obj pt attrs)) = pt.map Json.str := by
+  have hp : (orderByTable Gen.attributes (exportAttrs attrs)).lookup kProctype = none := by
+    rw [lookup_orderByTable, if_neg kProctype_not_attr]
+  refine ⟨?_, ?_, ?_, ?_⟩
+  · cases pt <;> simp [exportE, jField, header, List.lookup]
+  · cases pt <;> simp [exportE, jField, header, List.lookup, kUrl_ne_kName]
+  · cases pt <;> simp [exportE, jField, header, List.lookup, kObj_ne_kName, kObj_ne_kUrl]
+  · simp only [exportE, jField]
+    rw [lookup_append, hp]
+    cases pt <;> simp [header, List.lookup, kProctype_ne_kName, kProctype_ne_kUrl, kProctype_ne_kObj]
+
+/-- Non-vacuity for shared identifiers: a module with the type `vec_t` and the constructor interface
+    `vec_t` lists, under `interfaces`, the interface's page and, under `types`, the type's page. -/
+example :
+    let ty := Ent.node ['v', 'e', 'c', '_', 't'] (some "type/vec_t.html".toList) "type".toList none []
+    let ct := Ent.node ['v', 'e', 'c', '_', 't'] (some "interface/vec_t.html".toList) "proc".toList
+      (some "Interface".toList) []
+    let md := exportE (.node ['m'] (some "module/m.html".toList) "module".toList none
+      [("pub_procs".toList, .dict [(['v', 'e', 'c', '_', 't'], ct)]),
+       ("pub_types".toList, .dict [(['v', 'e', 'c', '_', 't'], ty)]),
+       ("interfaces".toList, .list [ct]), ("types".toList, .list [ty])])
+    listedUrl "interfaces".toList 0 md = some "./interface/vec_t.html".toList ∧
+    listedUrl "types".toList 0 md = some "./type/vec_t.html".toList := by
+  decide
+
+/-! ## Remote locations: the links lie below the URL as the user wrote it -/
+
+/-- For a remote external project written as `u` = `http(s)://authority...` in `external:`, with or
+    without a trailing slash, every entity URL is the written URL, a slash (unless `u` already ends
+    with one), and the entity's own `get_url()`: nothing of `u` is lost in `urljoin`, because the
+    base handed to `dict2obj` is the *normalised* one. -/
+theorem remote_entity_url_below_written_url (u pre rest rel : Str)
+    (h : stripHttp u = some (pre, rest)) (hr : rest ≠ []) :
+    rebase (remoteBase u) rel = normRemote u ++ rel := by
+  simp [rebase, remoteBase, urljoinSimple, urlDir_normRemote u pre rest h hr]
+
+/-- ... the description is fetched from `<u>/modules.json` ... -/
+theorem remote_index_url (u pre rest : Str) (h : stripHttp u = some (pre, rest)) (hr : rest ≠ []) :
+    indexUrl u = normRemote u ++ kModulesJson := by
+  simp [indexUrl, urljoinSimple, urlDir_normRemote u pre rest h hr]
+
+/-- ... and writing the trailing slash or not makes no difference at all. -/
+theorem remote_trailing_slash_irrelevant (u : Str) (hs : endsWithSlash u = false) :
+    remoteBase (u ++ ['/']) = remoteBase u ∧ indexUrl (u ++ ['/']) = indexUrl u := by
+  simp [remoteBase, indexUrl, normRemote_append_slash u hs]
+
+/-- **Round trip against a remote location.**  Every entity of A reachable through exported
+    attributes is appended to B's lists with URL = written URL of A + `/` + `get_url e`. -/
+theorem roundtrip_remote (u pre rest : Str) (h : stripHttp u = some (pre, rest)) (hr : rest ≠ [])
+    (version : Str) (mods : List Ent) (hv : validList mods = true)
+    (hn : mods.all isNode = true) (m : Ent) (hm : m ∈ mods) (e : Ent) (hre : Reach m e)
+    (name : Str) (url : Option Str) (obj : Str) (pt : Option Str) (attrs : List (Str × Attr))
+    (he : e = .node name url obj pt attrs) :
+    ∃ os, importDoc (remoteBase u) (dumpModules version mods) = .ok os ∧
+      ∃ x ∈ entriesAll os, x.name = .str name ∧ x.cls = kindOf obj pt ∧
+        x.url = .str (normRemote u ++ urlText url) := by
+  obtain ⟨os, hos, x, hx, h1, h2, _, h4⟩ :=
+    roundtrip (remoteBase u) version mods hv hn m hm e hre name url obj pt attrs he
+  exact ⟨os, hos, x, hx, h1, h2, by rw [h4, remote_entity_url_below_written_url u pre rest _ h hr]⟩
+
+/-- Why the normalisation is load-bearing: `urljoin` on the URL as written (no trailing slash)
+    replaces its last path segment, the normalised base keeps it. -/
+theorem remote_base_needs_slash_witness :
+    urljoinSimple "http://h/docs/proja".toList "module/m.html".toList = "http://h/docs/module/m.html".toList ∧
+    rebase (remoteBase "http://h/docs/proja".toList) "module/m.html".toList
+      = "http://h/docs/proja/module/m.html".toList := by
+  decide
 
 /-! ## The exporter never produces what the importer rejects -/
 
